@@ -30,6 +30,8 @@ type Task struct {
 	parkVT   time.Duration
 	children map[string]int
 	guard    func() bool
+	prio     int
+	prioSet  bool
 	// Ref is harness data (request or export the task is working on).
 	Req *ReqState
 }
@@ -55,6 +57,8 @@ type Sim struct {
 	sigHash *core.Hash64
 	done    atomic.Bool
 
+	Policy         string // scheduling policy of this run: uniform | sticky | priority
+	prioLow        int
 	free           bool // free-running mode: hooks do nothing
 	stalling       bool // clock mode: advance may be chosen while tasks are runnable
 	// rootChildren counts goroutines first seen while no task was running
@@ -324,7 +328,7 @@ func (s *Sim) Run(finished func() bool, progress func() int64, horizon time.Dura
 		if s.stalling && s.tape.Chance(core.Sched, 1, 10) {
 			c = n // stall
 		} else {
-			c = s.tape.Draw(core.Sched, n)
+			c = s.pick(ready)
 		}
 		if c >= n {
 			// stalled system / clock jump: time passes although tasks are runnable
@@ -350,6 +354,47 @@ func (s *Sim) Run(finished func() bool, progress func() int64, horizon time.Dura
 		s.curGID.Store(t.gid)
 		t.gate <- true
 	}
+}
+
+// pick chooses the next task among the ready ones according to the run's
+// scheduling policy (swarm): uniform random; sticky (keep running the same
+// task most of the time, so that one goroutine races far ahead of the others);
+// priority (PCT-like: every task has a tape-drawn priority, the highest ready
+// one runs, and at tape-chosen change points the running task is demoted, so
+// that a goroutine can be starved for a long stretch).
+func (s *Sim) pick(ready []*Task) int {
+	n := len(ready)
+	if n == 1 {
+		return 0
+	}
+	switch s.Policy {
+	case "sticky":
+		if s.current != nil && !s.tape.Chance(core.Sched, 1, 5) {
+			for i, t := range ready {
+				if t == s.current {
+					return i
+				}
+			}
+		}
+		return s.tape.Draw(core.Sched, n)
+	case "priority":
+		if s.tape.Chance(core.Sched, 1, 12) && s.current != nil {
+			s.prioLow--
+			s.current.prio = s.prioLow // demote the running task below everything
+		}
+		best := 0
+		for i, t := range ready {
+			if !t.prioSet {
+				t.prio = s.tape.Draw(core.Sched, 1000)
+				t.prioSet = true
+			}
+			if t.prio > ready[best].prio {
+				best = i
+			}
+		}
+		return best
+	}
+	return s.tape.Draw(core.Sched, n)
 }
 
 var stallQuanta = []time.Duration{time.Millisecond, 5 * time.Millisecond, 10 * time.Millisecond, 100 * time.Millisecond, 200 * time.Millisecond, time.Second, 5 * time.Second, time.Minute}
